@@ -208,7 +208,7 @@ func verifC05sc() { // group and optional edges
 }
 
 // ---- C09: key identity
-var vC09 = []string{"C09.", "C01.arg", "C01.zero", "C04.err"}
+var vC09 = []string{"C09.", "C01.arg", "C01.zero", "C01.foreign", "C04.err"}
 
 func verifC09a() { // names and result objects, duplicates allowed
 	verifRunProfile(&vProfile{name: "C09a", clauses: vC09,
